@@ -33,3 +33,27 @@ Theorem C17_chain_increasing : forall t, Inv t -> forall n x, lookup t x <> None
   forall a b l1 l2, chain n t x = l1 ++ a :: b :: l2 -> lexlt (fst (pot t a)) (snd (pot t a)) (fst (pot t b)) (snd (pot t b)).
 Proof. exact chain_increasing. Qed.
 Print Assumptions C17_chain_increasing.
+
+
+(* THE MESSAGE LEVEL.  From any list of unions, along EVERY delivery order of the pending visits of the walk protocol
+   (walk / update_parent / resolve_merge of disjoint_set_impl.hpp, acting on stale information): the forest invariant
+   holds in every reachable structure (hence no cycle, lookups terminate), and whichever pending visit is delivered
+   next, none of the guarded mutations can fail its guard and the ASSERT_RELEASE of resolve_merge holds.  Proof: the
+   pool of undelivered visits carries an invariant that is stable under the monotone evolution of the structure
+   (ranks never decrease; a non-root never becomes a root again and keeps its rank) - DisjointProto.v. *)
+From Ygm Require Import DisjointProto.
+Theorem C17_walk_protocol_safe : forall es s,
+  steps ([], unions es) s ->
+  Inv (fst s) /\ forall k v, nth_error (snd s) k = Some v -> exists t' sends, exec (fst s) v = Some (t', sends).
+Proof. exact walk_protocol_safe. Qed.
+Print Assumptions C17_walk_protocol_safe.
+
+Theorem C17_step_preserves : forall s s', GI s -> step s s' -> GI s'.
+Proof. exact step_preserves. Qed.
+Print Assumptions C17_step_preserves.
+
+(* the executable scheduler of the Examples can only stop by exhausting its fuel, never on a guard *)
+Theorem C17_run_pool_never_fails_a_guard : forall fuel pick t pool, GI (t, pool) ->
+  match run_pool fuel pick t pool with Some (t', _) => Inv t' | None => True end.
+Proof. exact run_pool_never_fails_a_guard. Qed.
+Print Assumptions C17_run_pool_never_fails_a_guard.
